@@ -218,115 +218,36 @@ class Generator:
                 if i < len(lines) and lines[i].strip() == "//@end":
                     i += 1
                 continue
-            if st.startswith("//@fn "):
-                rest = st[6:]
-                relfile, key = [x.strip() for x in rest.split("::", 1)]
-                spec = FnSpec(relfile, key)
+            if st.startswith("//@viewof "):
+                # caller view of a function whose contract is proved in another unit: same contract text, body dropped
+                rest = st[len("//@viewof "):]
+                upath, frest = [x.strip() for x in rest.split("::", 1)]
+                ulines = open(os.path.join(VERIF, upath)).read().split("\n")
+                want = "//@fn " + frest
+                k = next((n for n, l in enumerate(ulines) if l.strip().replace(" ", "") == want.replace(" ", "")), None)
+                if k is None:
+                    raise RuntimeError("viewof: %s not found in %s" % (frest, upath))
+                spec, _ = self.parse_fn_block(ulines, k)
+                spec.external = True
+                # local overrides (sub / recv) may follow
                 j = i + 1
-                cur = None  # (kind, target list/dict key)
-                buf = []
-
-                def flush():
-                    nonlocal cur, buf
-                    if cur is None:
-                        return
-                    text = "\n".join(buf).rstrip()
-                    k = cur[0]
-                    clauses = []
-                    acc = ""
-                    for b in buf:
-                        b = b.strip()
-                        if not b or b.startswith("//"):
-                            continue
-                        if b.endswith("\\"):
-                            acc += b[:-1].rstrip() + " "
-                            continue
-                        clauses.append((acc + b).rstrip(","))
-                        acc = ""
-                    if acc:
-                        clauses.append(acc.strip())
-                    if k == "requires":
-                        if cur[2] is not None:
-                            cur[2]["requires"].extend(clauses)
-                        else:
-                            spec.requires.extend(clauses)
-                    elif k == "ensures":
-                        tgt = cur[2]["ensures"] if cur[2] is not None else spec.ensures
-                        for c in clauses:
-                            tgt.append((cur[1], c))
-                    elif k == "nested":
-                        spec.nested[cur[1]] = text
-                    elif k == "loop":
-                        spec.loops[cur[1]] = text
-                    elif k == "closure":
-                        spec.closures[cur[1]] = text
-                    cur = None
-                    buf = []
-
-                case = None
-                while j < len(lines) and lines[j].strip() != "//@end":
-                    l2 = lines[j]
-                    s2 = l2.strip()
-                    if s2.startswith("//@ "):
-                        flush()
-                        d = s2[4:].strip()
-                        w = d.split(None, 1)
-                        cmd = w[0]
-                        arg = w[1] if len(w) > 1 else ""
-                        if cmd == "name":
-                            spec.name = arg.strip()
-                        elif cmd == "label":
-                            spec.label = arg.strip()
-                        elif cmd == "props":
-                            spec.props = [x.strip() for x in arg.split(",") if x.strip()]
-                        elif cmd == "sub":
-                            spec.subs.append(self.parse_sub(d))
-                        elif cmd == "recv":
-                            spec.recv = arg
-                        elif cmd == "ret":
-                            spec.ret = arg.strip()
-                        elif cmd == "noret":
-                            spec.noret = True
-                        elif cmd == "attr":
-                            spec.attrs.append(arg)
-                        elif cmd == "unasync":
-                            spec.unasync = True
-                        elif cmd == "external":
-                            spec.external = True
-                        elif cmd == "novis":
-                            spec.novis = True
-                        elif cmd == "view":
-                            spec.view = True
-                        elif cmd == "panic":
-                            spec.panic = arg
-                        elif cmd == "dropcall":
-                            spec.dropcalls.append(arg.strip())
-                        elif cmd == "requires":
-                            cur = ("requires", None, case)
-                        elif cmd == "ensures":
-                            cur = ("ensures", parse_tags(arg), case)
-                        elif cmd == "case":
-                            label, when = [x.strip() for x in arg.split(":", 1)]
-                            case = {"label": label, "when": when, "ensures": [], "requires": []}
-                            spec.cases.append(case)
-                        elif cmd == "mutself":
-                            spec.mutself = True
-                        elif cmd == "breakval":
-                            w2 = arg.split(None, 1)
-                            spec.breakvals.append((int(w2[0]), w2[1].strip() if len(w2) > 1 else None))
-                        elif cmd == "nested":
-                            cur = ("nested", int(arg), None)
-                        elif cmd == "loop":
-                            cur = ("loop", int(arg), None)
-                        elif cmd == "closure":
-                            cur = ("closure", int(arg), None)
-                        else:
-                            raise RuntimeError("unknown directive %r in %s" % (d, self.unit_path))
-                    else:
-                        if cur is not None:
-                            buf.append(l2)
+                while j < len(lines) and lines[j].strip().startswith("//@ "):
+                    d = lines[j].strip()[4:]
+                    if d.startswith("sub "):
+                        spec.subs.append(self.parse_sub(d))
                     j += 1
-                flush()
+                if j < len(lines) and lines[j].strip() == "//@end":
+                    j += 1
+                try:
+                    self.do_fn(spec)
+                except Undecided as u:
+                    self.undecided.append((frest, str(u)))
+                    self.emit("// UNDECIDED view %s: %s" % (frest, u))
+                i = j
+                continue
+            if st.startswith("//@fn "):
+                spec, j = self.parse_fn_block(lines, i)
+                relfile, key = spec.file, spec.key
                 try:
                     self.do_fn(spec)
                 except Undecided as u:
@@ -342,6 +263,119 @@ class Generator:
             self.out.append(ln)
             i += 1
         return "\n".join(self.out) + "\n"
+
+    def parse_fn_block(self, lines, i):
+        st = lines[i].strip()
+        if True:
+            rest = st[6:]
+            relfile, key = [x.strip() for x in rest.split("::", 1)]
+            spec = FnSpec(relfile, key)
+            j = i + 1
+            cur = None  # (kind, target list/dict key)
+            buf = []
+
+            def flush():
+                nonlocal cur, buf
+                if cur is None:
+                    return
+                text = "\n".join(buf).rstrip()
+                k = cur[0]
+                clauses = []
+                acc = ""
+                for b in buf:
+                    b = b.strip()
+                    if not b or b.startswith("//"):
+                        continue
+                    if b.endswith("\\"):
+                        acc += b[:-1].rstrip() + " "
+                        continue
+                    clauses.append((acc + b).rstrip(","))
+                    acc = ""
+                if acc:
+                    clauses.append(acc.strip())
+                if k == "requires":
+                    if cur[2] is not None:
+                        cur[2]["requires"].extend(clauses)
+                    else:
+                        spec.requires.extend(clauses)
+                elif k == "ensures":
+                    tgt = cur[2]["ensures"] if cur[2] is not None else spec.ensures
+                    for c in clauses:
+                        tgt.append((cur[1], c))
+                elif k == "nested":
+                    spec.nested[cur[1]] = text
+                elif k == "loop":
+                    spec.loops[cur[1]] = text
+                elif k == "closure":
+                    spec.closures[cur[1]] = text
+                cur = None
+                buf = []
+
+            case = None
+            while j < len(lines) and lines[j].strip() != "//@end":
+                l2 = lines[j]
+                s2 = l2.strip()
+                if s2.startswith("//@ "):
+                    flush()
+                    d = s2[4:].strip()
+                    w = d.split(None, 1)
+                    cmd = w[0]
+                    arg = w[1] if len(w) > 1 else ""
+                    if cmd == "name":
+                        spec.name = arg.strip()
+                    elif cmd == "label":
+                        spec.label = arg.strip()
+                    elif cmd == "props":
+                        spec.props = [x.strip() for x in arg.split(",") if x.strip()]
+                    elif cmd == "sub":
+                        spec.subs.append(self.parse_sub(d))
+                    elif cmd == "recv":
+                        spec.recv = arg
+                    elif cmd == "ret":
+                        spec.ret = arg.strip()
+                    elif cmd == "noret":
+                        spec.noret = True
+                    elif cmd == "attr":
+                        spec.attrs.append(arg)
+                    elif cmd == "unasync":
+                        spec.unasync = True
+                    elif cmd == "external":
+                        spec.external = True
+                    elif cmd == "novis":
+                        spec.novis = True
+                    elif cmd == "view":
+                        spec.view = True
+                    elif cmd == "panic":
+                        spec.panic = arg
+                    elif cmd == "dropcall":
+                        spec.dropcalls.append(arg.strip())
+                    elif cmd == "requires":
+                        cur = ("requires", None, case)
+                    elif cmd == "ensures":
+                        cur = ("ensures", parse_tags(arg), case)
+                    elif cmd == "case":
+                        label, when = [x.strip() for x in arg.split(":", 1)]
+                        case = {"label": label, "when": when, "ensures": [], "requires": []}
+                        spec.cases.append(case)
+                    elif cmd == "mutself":
+                        spec.mutself = True
+                    elif cmd == "breakval":
+                        w2 = arg.split(None, 1)
+                        spec.breakvals.append((int(w2[0]), w2[1].strip() if len(w2) > 1 else None))
+                    elif cmd == "nested":
+                        cur = ("nested", int(arg), None)
+                    elif cmd == "loop":
+                        cur = ("loop", int(arg), None)
+                    elif cmd == "closure":
+                        cur = ("closure", int(arg), None)
+                    else:
+                        raise RuntimeError("unknown directive %r in %s" % (d, self.unit_path))
+                else:
+                    if cur is not None:
+                        buf.append(l2)
+                j += 1
+        flush()
+        return spec, j
 
     def parse_sub(self, d):
         m = re.match(r'sub\s+(\S+)\s+"((?:[^"\\]|\\.)*)"\s+"((?:[^"\\]|\\.)*)"\s*$', d)
@@ -546,6 +580,10 @@ class Generator:
 
         body_s, body_e = it["body"]
         s, e = it["span"]
+        if spec.external and (spec.cases or any(t is not None for t, _ in spec.ensures)):
+            # a contracted callee seen from outside: one signature carrying every clause (`case ==> clause`)
+            self.emit_view(spec, src, it, base, site)
+            return
         self.functions.append(site)
         emitted_any = False
         for suffix, case, props, ens in self.copies(spec):
@@ -580,7 +618,7 @@ class Generator:
             if not spec.external:
                 self.obligations.append({"id": oid, "fn": site, "vname": nm, "case": case["label"] if case else None, "props": props, "start": start, "end": end, "posed": True, "source": spec.file, "clauses": ens})
             emitted_any = True
-        if spec.view:
+        if spec.view and any(sfx for sfx, _, _, _ in self.copies(spec)):
             self.emit_view(spec, src, it, base, site)
 
     def emit_view(self, spec, src, it, base, site):
